@@ -1,4 +1,5 @@
 import VaxisModel.Lemmas.InputQuery
+import VaxisModel.Lemmas.QueryBody
 import VaxisModel.Model.InputLoop
 
 /-!
@@ -83,6 +84,36 @@ theorem query_color_prologue (c : Color) :
     queryColorPre false c = .inl 0 ∧ queryColorPre true (indexColor 7) = .inr 7 ∧
     queryColorPre true (rgbColor 1 2 3) = .inl (rgbColor 1 2 3) ∧ queryColorPre true 0 = .inl 0 := by
   refine ⟨rfl, by decide, by decide, by decide⟩
+
+
+/-! ## `parseColorReply` interpreted from the source (round 4) -/
+
+open VaxisModel.Model.QueryBody in
+/-- The regenerated body of `parseColorReply` (`Gen.InputBody.pr`, a term of the statement language
+of `Model/GoBody.lean`) contains no node the translator did not know. -/
+theorem parse_reply_body_recognised : Gen.InputBody.pr.clean = true := by decide
+
+open VaxisModel.Model.QueryBody in
+/-- **`parseColorReply` run on its regenerated body = the model**, for every reply and every prefix:
+the same colour and the same `ok` (`Model/QueryBody.lean` executes the term: byte lengths, unsigned
+64-bit `mul` / `shl` / `-`, `div`, `shr`, `uint8`, `strconv.ParseUint(·, 16, 16)`, the array `rgb`). -/
+theorem parseColorReply_body_eq_model (resp pfx : List Nat) :
+    runPr resp pfx = .ok (match parseReply (pfx ++ [114, 103, 98, 58]) resp with | some c => (c, true) | none => (0, false)) :=
+  VaxisModel.Lemmas.QueryBody.pr_eq resp pfx
+
+open VaxisModel.Model.QueryBody in
+/-- What the requesters return (`colorOfReply`, over which `query_reply_exact` is proved) is the
+colour component of that run. -/
+theorem colorOfReply_is_body (resp pfx : List Nat) :
+    runPr resp pfx = .ok (colorOfReply (pfx ++ [114, 103, 98, 58]) resp, (parseReply (pfx ++ [114, 103, 98, 58]) resp).isSome) := by
+  rw [parseColorReply_body_eq_model]
+  unfold parseReply colorOfReply
+  cases matchLit (pfx ++ [114, 103, 98, 58]) resp with
+  | none => rfl
+  | some rest =>
+    simp only []
+    rcases splitOn 47 rest with _ | ⟨a, _ | ⟨b, _ | ⟨c, _ | ⟨d, t⟩⟩⟩⟩ <;> try rfl
+    cases ha : parseChannel a <;> cases hb : parseChannel b <;> cases hc : parseChannel c <;> simp [ha, hb, hc]
 
 /-! ## The hand-off of the reply (LTS) -/
 
